@@ -94,6 +94,9 @@ class _ThreadingShim:
     def Lock(self):
         return SimLock(self._sched, 'build_lock')
 
+    def RLock(self):
+        return SimLock(self._sched, 'rlock', reentrant=True)
+
     def __getattr__(self, name):
         return getattr(threading, name)
 
@@ -331,6 +334,8 @@ class Scheduler:
 
 def install_locks(sched, schemas=()):
     """Replace every lock the library owns or will create by SimLocks of this scheduler."""
+    import _thread
+    import sys as _sys
     import xmlschema.caching as caching
     import xmlschema.validators.xsd_globals as xg
     import xmlschema.resources.xml_loader as xl
@@ -344,6 +349,31 @@ def install_locks(sched, schemas=()):
         coll._locale_collate_lock = SimLock(sched, 'collate_lock')
     except Exception:
         pass
+    # generic sweep, so that a lock the library gains tomorrow is cooperative too (a real lock held across a
+    # switch would park the baton for ever and read as a deadlock that the code does not have):
+    #  - module-level and class-level lock OBJECTS are replaced,
+    #  - module-level names bound to the lock FACTORIES (`from threading import Lock`) are replaced,
+    #  - a module-level name `threading` is replaced by a shim whose Lock/RLock are cooperative.
+    lock_types = (type(threading.Lock()), type(threading.RLock()))
+    for modname, mod in list(_sys.modules.items()):
+        if mod is None or not modname.startswith(('xmlschema', 'elementpath')):
+            continue
+        for name, value in list(vars(mod).items()):
+            try:
+                if isinstance(value, lock_types):
+                    setattr(mod, name, SimLock(sched, f'{modname}.{name}', reentrant=isinstance(value, lock_types[1])))
+                elif value is threading.Lock or value is _thread.allocate_lock:
+                    setattr(mod, name, lambda _n=f'{modname}.{name}': SimLock(sched, _n))
+                elif value is threading.RLock:
+                    setattr(mod, name, lambda _n=f'{modname}.{name}': SimLock(sched, _n, reentrant=True))
+                elif value is threading and not isinstance(value, _ThreadingShim):
+                    setattr(mod, name, _ThreadingShim(sched))
+                elif isinstance(value, type) and getattr(value, '__module__', None) == modname:
+                    for cname, cvalue in list(vars(value).items()):
+                        if isinstance(cvalue, lock_types):
+                            setattr(value, cname, SimLock(sched, f'{value.__name__}.{cname}'))
+            except Exception:
+                pass
     seen = set()
 
     def fix_maps(maps):
